@@ -211,9 +211,9 @@ def _create_branch(pp, net, e, params):
     if t == "pipe":
         pp.create_pipe_from_parameters(net, a, b, length_km=q.get("length_km", 0.2),
                                        inner_diameter_mm=q.get("d_mm", 80.0), k_mm=q.get("k_mm", 0.1),
-                                       # every second pipe is thick-walled (heat is lost over the outer surface), the others have no
-                                       # outer diameter entry at all (then the inner one counts)
-                                       outer_diameter_mm=q.get("do_mm", q.get("d_mm", 80.0) * 1.25 if lab % 2 == 1 else None),
+                                       # thick-walled pipes (heat is lost over the outer surface) get "do_mm" from the row parameters; the others
+                                       # have no outer diameter entry at all (then the inner one counts)
+                                       outer_diameter_mm=q.get("do_mm"),
                                        sections=e.get("sec", 1), u_w_per_m2k=q.get("u", 5.0),
                                        text_k=q.get("text", 283.0), index=lab, in_service=svc)
     elif t == "valve":
